@@ -11,6 +11,7 @@ From V.c15 Require Import C15Model C15Spec C15HevcModel C15HevcSpec C15Examples 
 From V.c06 Require Import C06SencModel C06SencAuxProofs.
 From V.c07 Require Import C07Model C07Spec C07RangeProofs C07CryptProofs C07AuxProofs C07FinalProofs.
 From V.c07 Require Import C07CodecModel C07CodecProofs C07FragProofs C07OnlyProofs C07TrafModel C07TrafProofs C07MixedProofs C07OffsetProofs C07SizeProofs.
+From V.c07 Require Import C07WrapModel C07WrapProofs C07WrapFinalProofs.
 
 (* AppendProtectRange, every nrClear / nrProtected (65535, 65536, 131070, ... included) *)
 Theorem C07_append_protect_range : forall ssps c p,
@@ -439,6 +440,85 @@ Theorem C07_offsets_grow_struct : forall fr a,
 Proof. exact offsets_grow_struct. Qed.
 Print Assumptions C07_offsets_grow_struct.
 
+(* ---------------------------------------------------------------- third extension: the current text (2ef93b3) *)
+(* Get(AVC|HEVC)ProtectRanges since /repo 2ef93b3 (protect_ranges_w: position + NAL unit length added in 64 bits) and
+   the text before it (protect_ranges_r, uint32 sum): on EVERY byte string the new text returns what the old one
+   returned or refuses the sample, and on every concatenation of NAL units (any sizes, empty ones anywhere) below 2^32
+   bytes they are EQUAL - so every theorem above stated for protect_ranges_r on `frames nalus` (C07_partition,
+   C07_cenc_shape, C07_cbcs_shape(_avc/_hevc), C07_cbcs_unparsable_refused, ...) is a theorem of the current text *)
+Theorem C07_ranges_current_text : forall (isvideo : N -> bool) (hdr : list N -> res N) (sch : scheme),
+  (forall sample, protect_ranges_w isvideo hdr sch sample = protect_ranges_r isvideo hdr sch sample \/
+                  protect_ranges_w isvideo hdr sch sample = Err) /\
+  (forall nalus, lenN (frames nalus) < 4294967296 ->
+                 protect_ranges_w isvideo hdr sch (frames nalus) = protect_ranges_r isvideo hdr sch (frames nalus)).
+Proof. exact ranges_current_text. Qed.
+Print Assumptions C07_ranges_current_text.
+
+(* "each sample's sub-sample entries partition the sample exactly" for EVERY BYTE STRING the code accepts - no
+   hypothesis that the sample is a concatenation of NAL units (trailing bytes, length fields pointing anywhere, any
+   scheme, both codecs with the C15 slice-header parsers): the entries add up to the size of the sample, every clear
+   count fits 16 bits, there is at least one entry.  This is the `prot_in_sample` / `covered r <= |s|` hypothesis of the
+   fragment theorems (C07_no_counter_reuse_fragment, C07_iv8_layout, C07_fragment_only_protected,
+   C07_offsets_after_encrypt) for the functions EncryptFragment really calls.  False of the text before 2ef93b3:
+   C07_wrap_pinned_refuted *)
+Theorem C07_ranges_cover_any_bytes :
+  (forall (isvideo : N -> bool) (hdr : list N -> res N) (sch : scheme) (sample : list N) (r : list ssp),
+     (forall n h, hdr n = Ok h -> h <= lenN n) ->
+     lenN sample < 4294967296 ->
+     protect_ranges_w isvideo hdr sch sample = Ok r ->
+     sumN (map (fun p => ss_clear p + ss_prot p) r) = lenN sample /\
+     Forall (fun p => ss_clear p < 65536) r /\ r <> []) /\
+  (forall spsmap ppsmap sch sample r,
+     lenN sample < 4294967296 ->
+     avc_protect_ranges_w spsmap ppsmap sch sample = Ok r ->
+     sumN (map (fun p => ss_clear p + ss_prot p) r) = lenN sample /\
+     Forall (fun p => ss_clear p < 65536) r /\ r <> []) /\
+  (forall spsmap ppsmap sch sample r,
+     lenN sample < 4294967296 ->
+     hevc_protect_ranges_w spsmap ppsmap sch sample = Ok r ->
+     sumN (map (fun p => ss_clear p + ss_prot p) r) = lenN sample /\
+     Forall (fun p => ss_clear p < 65536) r /\ r <> []).
+Proof. exact ranges_cover_any_bytes. Qed.
+Print Assumptions C07_ranges_cover_any_bytes.
+
+(* the loop of Get(AVC|HEVC)ProtectRanges ends within |sample| iterations on EVERY byte string (every iteration moves
+   the position forward by at least 4): the fuel of the model is never exhausted *)
+Theorem C07_ranges_terminate : forall (isvideo : N -> bool) (hdr : list N -> res N) (sch : scheme) (sample : list N),
+  (forall n h, hdr n = Ok h -> h <= lenN n) -> (forall n, hdr n <> OutOfFuel) ->
+  lenN sample < 4294967296 ->
+  protect_ranges_w isvideo hdr sch sample <> OutOfFuel.
+Proof. exact ranges_terminate. Qed.
+Print Assumptions C07_ranges_terminate.
+
+(* finding C07-F6 in the model of the text before 2ef93b3, 9-byte samples: length field 2^32-4 on an AVC access unit
+   delimiter - after every iteration the loop is back in its initial state (the Go loop never ends; reproduced); the
+   same field on an IDR slice - slice bounds panic; the current text refuses both *)
+Theorem C07_wrap_pinned_refuted :
+  (forall fuel, pr_loop_g avc_is_video (fun _ => Err) Cenc true fuel wrap_hang_sample 0 0 0 [] = OutOfFuel) /\
+  protect_ranges_r avc_is_video (fun _ => Err) Cenc wrap_panic_sample = Panic /\
+  protect_ranges_w avc_is_video (fun _ => Err) Cenc wrap_hang_sample = Err /\
+  protect_ranges_w avc_is_video (fun _ => Err) Cenc wrap_panic_sample = Err.
+Proof. exact wrap_pinned_refuted. Qed.
+Print Assumptions C07_wrap_pinned_refuted.
+
+(* C07_partition + C07_cenc_shape and C07_cbcs_shape restated for the current text *)
+Theorem C07_partition_shape_current :
+  (forall (isvideo : N -> bool) (hdr : list N -> res N) (nalus : list (list N)),
+     nalus <> [] -> lenN (frames nalus) < 4294967296 ->
+     exists r, protect_ranges_w isvideo hdr Cenc (frames nalus) = Ok r /\
+               expand r = spec_mask isvideo (fun n => prot_cenc (lenN n)) nalus /\
+               sumN (map (fun p => ss_clear p + ss_prot p) r) = lenN (frames nalus) /\
+               Forall (fun p => ss_clear p < 65536 /\ ss_prot p mod 16 = 0) r) /\
+  (forall (isvideo : N -> bool) (hdr : list N -> res N) (hs : list N -> N) (nalus : list (list N)),
+     wf_nalus_cbcs nalus = true -> lenN (frames nalus) < 4294967296 ->
+     (forall n, In n nalus -> first_is_video isvideo n = true -> hdr n = Ok (hs n) /\ hs n <= lenN n) ->
+     exists r, protect_ranges_w isvideo hdr Cbcs (frames nalus) = Ok r /\
+               expand r = spec_mask isvideo (fun n => lenN n - hs n) nalus /\
+               sumN (map (fun p => ss_clear p + ss_prot p) r) = lenN (frames nalus) /\
+               Forall (fun p => ss_clear p < 65536) r).
+Proof. exact partition_shape_current. Qed.
+Print Assumptions C07_partition_shape_current.
+
 (* ---------------------------------------------------------------- the hypotheses are satisfiable *)
 Definition ex_nalus : list (list N) :=
   [ [9; 240];                                  (* AUD, 2 bytes *)
@@ -556,3 +636,17 @@ Example ex_truncated_slices :
   hevc_protect_ranges ex_spsmap ex_ppsmap Cbcs
     (frames [[70; 1; 80]; firstn 20 (hnalu_slice ex_hsps ex_hpps_b ex_hslice_b)]) = Err.
 Proof. vm_compute. repeat split; reflexivity. Qed.
+
+(* the current text on byte strings that are NOT concatenations of NAL units (3 bytes behind the last NAL unit): the
+   entries cover the 272 bytes; a slice-header function satisfying both hypotheses of C07_ranges_terminate, cbcs *)
+Definition ex_hdr3 (n : list N) : res N := Ok (N.min 3 (lenN n)).
+
+Example ex_cover_any_bytes :
+  protect_ranges_w avc_is_video (fun _ => Err) Cenc (frames ex_nalus ++ [1; 2; 3]) = Ok [mkSsp 102 48; mkSsp 122 0] /\
+  protect_ranges_w avc_is_video ex_hdr3 Cbcs (frames ex_nalus ++ [1; 2; 3]) = Ok [mkSsp 13 137; mkSsp 15 104; mkSsp 3 0] /\
+  lenN (frames ex_nalus ++ [1; 2; 3]) = 272 /\
+  (forall n h, ex_hdr3 n = Ok h -> h <= lenN n) /\ (forall n, ex_hdr3 n <> OutOfFuel).
+Proof.
+  split; [vm_compute; reflexivity|]. split; [vm_compute; reflexivity|]. split; [vm_compute; reflexivity|].
+  split; [|discriminate]. unfold ex_hdr3. intros n h H. inversion H. lia.
+Qed.
